@@ -51,6 +51,68 @@ $GEN{$NG(a int)}{int}{
 	$YIELD{int(k)}
 	$RET
 }`, entries: []*Entry{drive("$NG", "int", 1, [][]int{{0}, {2}})}},
+	// the body of a loop with a yielding post declares a TYPE / a constant / a function-typed variable named like a variable the
+	// post reads
+	{name: "loop-body-declares-type-and-const-named-like-variables-of-the-post", decls: `
+$GEN{$NG(a int)}{int}{
+	x, y := a, 10
+	for i := 0; i < 2; $YIELD{x + y + i} {
+		i++
+		type x int
+		const y = 1000
+		var z x = x(y)
+		tr.Ev(1, int(z))
+	}
+	for j := 0; j < 2; $YIELD{x*100 + j} {
+		j++
+		x := func() int { return j }
+		tr.Ev(2, x())
+	}
+	$RET
+}`, entries: []*Entry{drive("$NG", "int", 1, [][]int{{0}, {2}})}},
+	// statement kinds the compiler keeps as they are, between yields: go statement (synchronised), send, receive, declarations
+	// of types/constants/vars, swaps, op-assignments, inc/dec, labelled-free empty statements, calls of closures and methods
+	{name: "plain-statement-kinds-between-yields", decls: `
+type $NAcc struct{ n int }
+
+func (c *$NAcc) Add(d int) *$NAcc { c.n += d; return c }
+
+$GEN{$NG(a int)}{int}{
+	ch := make(chan int, 1)
+	done := make(chan struct{})
+	$YIELD{a}
+	go func() {
+		ch <- a + 1
+		close(done)
+	}()
+	<-done
+	v, ok := <-ch
+	$YIELD{v}
+	ch <- v * 2
+	type pair struct{ l, r int }
+	const k = 3
+	var (
+		p  = pair{a, k}
+		q  pair
+		xs [k]int
+	)
+	q.l, q.r = p.r, p.l
+	$YIELD{q.l*10 + q.r}
+	xs[1] += <-ch
+	xs[1] <<= 1
+	xs[2]--
+	;
+	acc := &$NAcc{}
+	acc.Add(xs[1]).Add(xs[2])
+	$YIELD{acc.n}
+	if ok {
+		var iface interface{ Add(int) *$NAcc } = acc
+		iface.Add(k)
+	}
+	func() { acc.n *= 2 }()
+	$YIELD{acc.n}
+	$RET
+}`, entries: []*Entry{drive("$NG", "int", 1, [][]int{{0}, {2}})}},
 	{name: "collection-range-variables-written-and-captured", decls: `
 $GEN{$NG(a int)}{int}{
 	xs := []int{a, a + 1, a + 2}
@@ -507,6 +569,18 @@ $GEN{$NG(a int)}{int}{
 	for i := range grid[1] {
 		$YIELD{100 + i}
 	}
+	for i := range (p.A) {
+		$YIELD{200 + i}
+	}
+	rows := make(chan [2]int, 2)
+	rows <- [2]int{a, a}
+	rows <- [2]int{5, 6}
+	for i := range <-rows {
+		$YIELD{300 + i + len(rows)}
+	}
+	for i, e := range <-rows {
+		$YIELD{400 + i + e}
+	}
 	$RET
 }`, entries: []*Entry{drive("$NG", "int", 1, [][]int{{0}, {3}})}},
 	{name: "constant-bound-with-iteration-variable-of-a-local-named-type", decls: `
@@ -570,6 +644,26 @@ func $NB(a int) (res int) {
 	res = res*10 + <-done
 	defer func() { res += func() int { return $NNow() }() }()
 	return
+}`, entries: []*Entry{callEntry("$NB", 1, nil)}},
+	// side-effect imports: two neighbours and one apart (the static oracle sideEffectImportsKept compares the import sets)
+	{name: "side-effect-imports", imports: []string{`_ "crypto/sha256"`, `_ "crypto/sha512"`, `_ "image/png"`, `"image"`}, decls: byGen + `
+func $NB(a int) int {
+	return a + image.Pt(a, 1).Y
+}`, entries: []*Entry{callEntry("$NB", 1, nil)}},
+	{name: "eta-parameter-types-chan-map-func-struct", tags: []string{"eta-shape"}, decls: byGen + `
+type $NCfg struct{ n int }
+
+func $NUse(c chan int, m map[string][]int, f func(int) int, s $NCfg, p *$NCfg, arr [2]int, i interface{ Len() int }) int {
+	return len(c) + len(m) + f(s.n) + p.n + arr[1]
+}
+
+func $NB(a int) int {
+	g := func(c chan int, m map[string][]int, f func(int) int, s $NCfg, p *$NCfg, arr [2]int, i interface{ Len() int }) int {
+		return $NUse(c, m, f, s, p, arr, i)
+	}
+	c := make(chan int, 2)
+	c <- 1
+	return g(c, map[string][]int{"k": nil}, func(x int) int { return x + a }, $NCfg{2}, &$NCfg{3}, [2]int{4, 5}, nil)
 }`, entries: []*Entry{callEntry("$NB", 1, nil)}},
 	{name: "range-over-func-outside-generators", decls: byGen + `
 func $NSeq(n int) func(func(int) bool) {
